@@ -406,11 +406,9 @@ fn synth_factor(
             } else {
                 // The `current` map shadows the persistent nets within a block
                 // so that `a = a + 1`-style reads pick up the previous value.
-                // Inside `always_ff` a flip-flop variable reads as its Q nets even
-                // after it was assigned (non-blocking semantics); block-local
-                // temporaries and function locals keep the blocking `current` view.
-                let reads_q = ctx.in_ff && ctx.ff_allocation.contains_key(id);
-                let src_nets = (if reads_q { None } else { current.get(id).cloned() })
+                let src_nets = current
+                    .get(id)
+                    .cloned()
                     .or_else(|| ctx.variables.get(id).map(|s| s.nets.clone()))
                     .ok_or_else(|| {
                         SynthesizerError::internal(format!("reference to unknown variable {}", id))
